@@ -266,6 +266,24 @@ def evaluate(case):
                 if ij[1] not in spans.get(ij[0], ()):
                     ev.dev("match-not-contained", flags=flags, observed=t, span=list(ij))
                     break
+    # the same question once more in address-only presentation (one flag setting per case, chosen by the case itself): the
+    # addresses are those of the first instruction of each window of the leftmost non-overlapping scan - also address 0
+    q = len(case["listing"]) % 4
+    mn_full, op_full = FLAGS[q]
+    spans = Ref(NV, mn_full, op_full).spans(pattern)
+    want, pos = [], 0
+    for i_ in sorted(spans):
+        if i_ >= pos:
+            want.append(NV[i_][0])
+            pos = min(spans[i_])
+    r_addr = jasm_io.match(jasm_io.make_doc(pattern, mn_full, op_full), text, mode="list", search="all", only_addr=True)
+    ev.subcases += 1
+    if r_addr[0] == "ok" and r_addr[1] != want:
+        ev.dev("address-list", flags={"mnemonics-full-match": mn_full, "operands-full-match": op_full}, expected=want[:6], observed=r_addr[1][:6])
+    elif r_addr[0] == "exc":
+        ev.dev("exception", mode="list/address-only", error=list(r_addr[1:]))
+    if NV and NV[0][0] == "0" and want[:1] == ["0"]:
+        ev.tags.append("match-at-address-0")
     found_default = verdicts[0]
     ev.tags.append(f"mut={mut}")
     ev.tags.append("expect=found" if found_default else "expect=notfound")
